@@ -90,9 +90,11 @@ const (
 	FCaptP              // *CapStr
 	FCapts              // []CapStr
 	FText               // TextStr (implements encoding.TextUnmarshaler)
+	FCust               // PI: interface type whose values come from a ParseTypeWith function
+	FCusts              // []PI
 )
 
-var fkindNames = []string{"string", "[]string", "bool", "*string", "lexer.Token", "[]lexer.Token", "*P", "[]*P", "P", "[]P", "U", "[]U", "NamedString", "NamedBool", "*bool", "int", "[]int", "int8", "*PTok", "PTok", "[]PTok", "CapStr", "*CapStr", "[]CapStr", "TextStr"}
+var fkindNames = []string{"string", "[]string", "bool", "*string", "lexer.Token", "[]lexer.Token", "*P", "[]*P", "P", "[]P", "U", "[]U", "NamedString", "NamedBool", "*bool", "int", "[]int", "int8", "*PTok", "PTok", "[]PTok", "CapStr", "*CapStr", "[]CapStr", "TextStr", "PI", "[]PI"}
 
 func (k FKind) String() string { return fkindNames[k] }
 
@@ -373,6 +375,25 @@ func (p *PTok) Parse(lex *lexer.PeekingLexer) error {
 	return nil
 }
 
+// PI is an interface type whose values are produced by a function registered with participle.ParseTypeWith
+// (ParsePI); like PTok the function consumes exactly one token.
+type PI interface{}
+
+// PIVal is what ParsePI returns.
+type PIVal struct {
+	V string
+}
+
+// ParsePI is the custom production behind PI.
+func ParsePI(lex *lexer.PeekingLexer) (PI, error) {
+	t := lex.Peek()
+	if t.EOF() {
+		return nil, participle.NextMatch
+	}
+	lex.Next()
+	return PIVal{V: t.Value}, nil
+}
+
 // CapStr is a field type with user-implemented capturing (participle.Capture): it records every call.
 type CapStr struct {
 	Calls string
@@ -425,6 +446,7 @@ var (
 	tInt     = reflect.TypeOf(int(0))
 	tInt8    = reflect.TypeOf(int8(0))
 	tPTok    = reflect.TypeOf(PTok{})
+	tPI      = reflect.TypeOf((*PI)(nil)).Elem()
 	tCapStr  = reflect.TypeOf(CapStr{})
 	tTextStr = reflect.TypeOf(TextStr{})
 )
@@ -510,6 +532,10 @@ func (g *Grammar) Types() []reflect.Type {
 				ft = reflect.SliceOf(tCapStr)
 			case FText:
 				ft = tTextStr
+			case FCust:
+				ft = tPI
+			case FCusts:
+				ft = reflect.SliceOf(tPI)
 			}
 			sf = append(sf, reflect.StructField{Name: fmt.Sprintf("F%d", fi), Type: ft, Tag: tags[fi]})
 		}
